@@ -176,7 +176,7 @@ def _c15_cov(rs):
     return {"states": max(1, _sum(rs, "distinct_signatures")), "transitions": _sum(rs, "parses"), "traces_validated_against_impl": hist,
             "distinct_nontrivial": _sum(rs, "final_rejected") + _sum(rs, "final_with_validity_errors") + _sum(rs, "instances_invalid") + _sum(rs, "handler_exceptions_thrown"),
             "nonvacuity": {k: _sum(rs, k) for k in ("final_accepted", "final_rejected", "final_with_validity_errors", "handler_exceptions_thrown", "documents_adopted",
-                                                     "adopted_documents_rechecked", "instances_valid", "instances_invalid", "locked_pool_checks", "growth_histories", "schema_reuse_histories", "cache_switch_histories")},
+                                                     "adopted_documents_rechecked", "instances_valid", "instances_invalid", "locked_pool_checks", "growth_histories", "schema_reuse_histories", "cache_switch_histories", "expansion_limit_histories")},
             "explanation": "states = distinct abstract reference-model states (final configuration x API) reached; transitions = operations executed on real parser objects; "
                            "traces = complete histories, each executed on a long-lived parser and compared with a freshly constructed one"}
 
@@ -200,7 +200,9 @@ CHECKS["C15"] = dict(
          "3 cache regimes; quick: every history of <= 1 prior parse (API rotating with the history index), thorough: <= 1 under all 3 APIs and <= 2 with cacheGrammarFromParse. "
          "Cache-switch space: every sequence of <= 3 (thorough 4) operations over {cacheGrammarFromParse on/off, useCachedGrammarInParse on/off, resetCachedGrammarPool, loadGrammar(s1, toCache), "
          "parse(D1 naming s1.xsd), parse(D2 naming s2.xsd - another schema document for the SAME namespace), parse(plain)} x 3 APIs x {IG, SG}, followed by parse(D1|D2); a small reference "
-         "model of the documented lookup order says which grammar is in force, and the outcome must equal that of a fresh parser given exactly that grammar.",
+         "model of the documented lookup order says which grammar is in force, and the outcome must equal that of a fresh parser given exactly that grammar. "
+         "Expansion-limit space: a SecurityManager (limit 4) installed once; every sequence of <= 2 (thorough 3) parses of 8 documents with 0..5 entity expansions (content, nested, attribute value, "
+         "predefined only, abandoned) x 4 scanners x 3 APIs, then a final parse: expansions are counted per parse, so the outcome must equal a fresh parser's.",
     trusted_base=["clang 14 ASan/UBSan"],
     assumptions=["when a cached DTD grammar is used, declaration events and the DOM doctype's entity map are not replayed by design; they are projected away (the property names verdicts, defaults and type information)"],
     coverage=_c15_cov,
@@ -210,14 +212,16 @@ CHECKS["C15"] = dict(
                _hx("cache-transparency", "--space", "cache"),
                _hx("table-growth-histories-depth2", "--space", "growth", "--depth", 2),
                _hx("schema-reuse-histories-depth1", "--space", "schema", "--depth", 1, "--rotate", 1),
-               _hx("grammar-cache-switch-histories-depth3", "--space", "toggle", "--depth", 3)],
+               _hx("grammar-cache-switch-histories-depth3", "--space", "toggle", "--depth", 3),
+               _hx("expansion-limit-histories-depth2", "--space", "explimit", "--depth", 2)],
         thorough=[_hx("histories-depth2", "--space", "hist", "--depth", 2),
                   _hx("histories-depth3-3docs", "--space", "hist", "--depth", 3, "--opdocs", 3),
                   _hx("cache-transparency", "--space", "cache"),
                   _hx("table-growth-histories-depth3", "--space", "growth", "--depth", 3),
                   _hx("schema-reuse-histories-depth1-all-apis", "--space", "schema", "--depth", 1),
                   _hx("schema-reuse-histories-depth2-cached", "--space", "schema", "--depth", 2, "--rotate", 1, "--caches", "1"),
-                  _hx("grammar-cache-switch-histories-depth4", "--space", "toggle", "--depth", 4)],
+                  _hx("grammar-cache-switch-histories-depth4", "--space", "toggle", "--depth", 4),
+                  _hx("expansion-limit-histories-depth3", "--space", "explimit", "--depth", 3)],
     ),
     manifest=dict(technique="exhaustive enumeration of operation histories up to a depth on long-lived real parser objects, each compared with a fresh parser (reference model = configuration tracking)",
                   text="All histories within the depth bound are executed on the real parser; hidden state is exactly what is under test, so no state merging is done on the implementation side."),
